@@ -725,7 +725,7 @@ func TestVerif_C17(t *testing.T) {
 		"new values are tagged with the side that wrote them, so two sides never make equal element edits of the same array unless the whole edit is identical (the documented rule 'both sides modify the same array to different values => conflict' is then unambiguous: arrays are atomic in the model)")
 	defer rec.Write(t)
 	t.Run("pinned", c17mPinned)
-	vh.Check(t, "merge", 3000, 12000, func(rt *rapid.T) {
+	vh.Check(t, "merge", 3000, 10000, func(rt *rapid.T) {
 		if kind, msg := c17mCase(rt, rec); kind != "" {
 			rt.Fatalf("[%s] %s", kind, msg)
 		}
